@@ -1,6 +1,6 @@
 From Coq Require Import List NArith Bool Sorted.
 From V.gen Require Consts.
-From V.Ts Require Import Model Proofs Answers Report ReportProofs ReportDead ReportDeadProofs.
+From V.Ts Require Import Model Proofs Answers Extra Report ReportProofs ReportDead ReportDeadProofs.
 Import ListNotations.
 Open Scope N_scope.
 From V.C08 Require Import Properties.
@@ -155,6 +155,37 @@ Check (C08_no_closed_without_report :
   nth_error (r_ch (d_s d)) p = Some ch -> nth_error (r_ch (d_s (fst (dstep d o)))) p = Some ch' ->
   (forall b, o <> DBase (RClosed b)) ->
   ~ In (IClosed c) (racc ch) -> ~ In (IClosed c) (racc ch')).
+Check (C08_alternation_unconditional :
+  forall tr s q, alternates (hc (s_ctxs s) q) (conn_evs q (concat (run s tr)))).
+Check (C08_panic_exactly_unknown_peer :
+  forall s dt i,
+  In OPanic (snd (step s dt i)) <-> exists p c, i = EClosed p c /\ find_ctx p (s_ctxs s) = None).
+Check (C08_no_panic_in_contract :
+  forall ka T n0 tr,
+  feasible 2 env0 (init ka T n0) tr = true -> ~ In OPanic (concat (run (init ka T n0) tr))).
+Check (C08_third_connection_ignored :
+  forall s p c cx h,
+  find_ctx p (s_ctxs s) = Some cx -> c_sec cx = Some h ->
+  snd (handle_ev s (EEst p c)) = [] /\ ka_activity_of s (EEst p c) = None /\
+  s_ctxs (fst (handle_ev s (EEst p c))) = s_ctxs s /\ s_last (fst (handle_ev s (EEst p c))) = s_last s /\
+  s_timers (fst (handle_ev s (EEst p c))) = s_timers s).
+Check (C08_closed_unknown_id_drops_secondary :
+  forall s p c cx,
+  find_ctx p (s_ctxs s) = Some cx -> h_id (c_prim cx) <> c ->
+  snd (handle_ev s (EClosed p c)) = [] /\
+  find_ctx p (s_ctxs (fst (handle_ev s (EClosed p c)))) = Some (mkCtx p (c_prim cx) None)).
+Check (C08_force_close_invisible :
+  forall s dt p fs fp, fst (step s dt (EForce p fs fp)) = fst (step s dt ENone)).
+Check (C08_force_close_targets :
+  forall e s dt i c,
+  conn_inv e (s_ctxs s) (s_pend s) -> In (OForce c) (snd (step s dt i)) ->
+  exists p fs fp, i = EForce p fs fp /\ In c (live_of p (e_live e))).
+Check (C08_force_close_result :
+  forall e s dt p fs fp r,
+  conn_inv e (s_ctxs s) (s_pend s) -> In (ORetF r) (snd (step s dt (EForce p fs fp))) ->
+  (r = 1 <-> live_of p (e_live e) = []) /\
+  (r = 0 -> exists c, hd_error (live_of p (e_live e)) = Some c /\ In (OForce c) (snd (step s dt (EForce p fs fp)))) /\
+  (r = 3 -> fp = true) /\ r <= 3).
 Check (C08_needs_two_per_peer :
   exists tr q,
   feasible 3 env0 (init true 1000 0) tr = true /\
